@@ -2,6 +2,8 @@ import I18n.Lemmas.LocaleParse
 import I18n.Lemmas.LocaleRe
 import I18n.Lemmas.LocaleFix
 import I18n.Lemmas.LocaleTags
+import I18n.Lemmas.LocaleTagIff
+import I18n.Lemmas.LocaleNoCrash
 /-
 C19 — locale names are parsed, normalised and compared consistently.
 Clause 1: parse/print; clause 2: fix_codes; clause 3: the language tags of check_language (see below).
@@ -194,6 +196,85 @@ theorem final_language_none_iff (munch : List Char → List Char) (inp : Input) 
   cases effectiveOutside munch inp with
   | some o => simp
   | none => cases fieldLanguage munch inp.metaLanguages <;> simp
+
+/-- `language-disparity` is reported iff a source outside the header (the option, else an `LC_MESSAGES` directory, else the base
+    name; minus the LibreOffice exception) and the `Language` field name different languages after dropping encoding and
+    `@euro`, or the file's language and X-Poedit-Language have different language codes -/
+theorem language_disparity_iff (munch : List Char → List Char) (inp : Input) (out : Output)
+    (h : checkLanguage munch inp = .ok out) :
+    hasName "language-disparity" out.tags ↔
+      inp.isTemplate = false ∧
+        ((∃ o m, effectiveOutside munch inp = some o ∧ fieldLanguage munch inp.metaLanguages = some m ∧ o.language ≠ m)
+          ∨ (∃ p pl l src, poeditValue inp = some p ∧ named munch p = some pl ∧ primary munch inp = some (l, src) ∧ l.ll ≠ pl.ll)) := by
+  rw [(checkLanguage_verdict munch inp out h).1]; exact disparity_iff munch inp
+
+/-- `invalid-language` is reported iff the field's value is not a locale name with known, canonical codes -/
+theorem invalid_language_iff (munch : List Char → List Char) (inp : Input) (out : Output)
+    (h : checkLanguage munch inp = .ok out) :
+    hasName "invalid-language" out.tags ↔
+      inp.isTemplate = false ∧ ∃ v, fieldValue inp.metaLanguages = some v ∧ v ≠ []
+        ∧ ¬ ∃ l, parseLanguage v = some l ∧ ∃ l', canonical l = some (l', false) := by
+  rw [(checkLanguage_verdict munch inp out h).1]; exact I18n.Locale.invalid_language_iff munch inp
+
+/-- `unable-to-determine-language` is reported iff no source names a language (and then `ctx.language` is `None`: no guess) -/
+theorem unable_to_determine_iff (munch : List Char → List Char) (inp : Input) (out : Output)
+    (h : checkLanguage munch inp = .ok out) :
+    (hasName "unable-to-determine-language" out.tags ↔ inp.isTemplate = false ∧ finalLanguage munch inp = none)
+      ∧ (hasName "unable-to-determine-language" out.tags → out.language = none) := by
+  obtain ⟨h1, h2⟩ := checkLanguage_verdict munch inp out h
+  rw [h1, h2]
+  refine ⟨unable_iff munch inp, ?_⟩
+  intro hu
+  have := (unable_iff munch inp).1 hu
+  simp [verdictLanguage, this.1, this.2]
+
+/-- the correction offered for an English language name always comes from the name table -/
+theorem name_correction_sound (m : List Char) (l : Language) (h : getLanguageForName m = .ok l) :
+    ∃ n c, nameCode n = some c ∧ parseLanguage c = some l ∧
+      (n = m ∨ (∃ x ∈ splitOn ';' m, n = strip x)
+        ∨ n = strip ((m.dropWhile (· ≠ ',')).drop 1) ++ ' ' :: strip (m.takeWhile (· ≠ ','))
+        ∨ (∃ x ∈ splitOn ',' m, n = strip x)) :=
+  getLanguageForName_sound m l h
+
+/-- … and a name of the table is always recognised -/
+theorem name_correction_complete (m c : List Char) (h : nameCode m = some c) : ∃ l, getLanguageForName m = .ok l := by
+  obtain ⟨l, hl⟩ := nameCode_parses m c h
+  exact ⟨l, by rw [getLanguageForName_whole m c h]; simp [parseLanguageE, hl]⟩
+
+/-! ## NoCrash -/
+
+/-- the only exception `check_language` can raise is the `assert ext == '.po'`, and only for a path ending in `.po` whose base
+    name `os.path.splitext` gives no `.po` extension (dots followed by `po`), with no `-l` and no usable `LC_MESSAGES` directory -/
+theorem check_language_error_kinds (munch : List Char → List Char) (inp : Input) (e : LErr) (h : checkLanguage munch inp = .error e) :
+    e = .assertion ∧ inp.isTemplate = false ∧ inp.optLanguage = none ∧ ".po".toList.isSuffixOf inp.path = true
+      ∧ (splitext (basename inp.path)).2 ≠ ".po".toList :=
+  checkLanguage_error munch inp e h
+
+/-- with the file type derived from the file name, as `Checker.check()` does unless the hidden `--file-type` option is given,
+    `check_language` raises nothing -/
+theorem check_language_nocrash (munch : List Char → List Char) (inp : Input) (hg : knownExtension inp.path = true) :
+    ∃ out, checkLanguage munch inp = .ok out :=
+  checkLanguage_nocrash munch inp hg
+
+/-- `parse_language`, `fix_codes`, the `-l` handling and `get_language_for_name` raise only their documented exceptions -/
+theorem leaf_error_kinds (s : List Char) (l : Language) (e : LErr) :
+    (parseLanguageE s = .error e → e = .syntax) ∧ (fixCodes l = .error e → e = .fixingCodes)
+      ∧ (cliLanguage s = .error e → e.isLanguageError = true) ∧ (getLanguageForName s = .error e → e = .lookupError) := by
+  refine ⟨?_, fixCodes_err l e, ?_, ?_⟩
+  · intro h; unfold parseLanguageE at h; split at h <;> cases h; rfl
+  · intro h
+    rw [cli_language_spec] at h
+    split at h
+    · cases h
+    · cases h; split <;> rfl
+  · intro h
+    rcases getLanguageForName_cases s with ⟨l', hl⟩ | hl
+    · rw [hl] at h; cases h
+    · rw [hl] at h; cases h; rfl
+
+example : (checkLanguage (fun s => s) ⟨false, none, "/x/.po".toList, [], [], []⟩).toOption = none := by decide +kernel
+example : knownExtension "/x/.po".toList = false := by decide
+example : knownExtension "/x/pl.po".toList = true := by decide
 
 example : verdictTags (fun s => s) ⟨false, none, "po/pl.po".toList, ["de".toList], [], []⟩
     = [disparity ⟨"pl".toList, none, none, none⟩ "pathname" ⟨"de".toList, none, none, none⟩ "Language header field"] := by
